@@ -27,7 +27,7 @@ def write_if_changed(path, text):
 OUTPUTS = {'gen_tables': ['Tables.v'], 'gen_periodic': ['Periodic.v'], 'gen_transformers': ['Transformers.v'],
            'gen_network': ['NetworkGen.v'], 'gen_drawing': ['DrawingGen.v'], 'gen_circuit': ['CircuitGen.v'],
            'gen_saveload': ['SaveLoadGen.v'], 'gen_annotation': ['AnnotationGen.v'], 'gen_format': ['FormatGen.v'],
-           'gen_matrix': ['MatrixGen.v']}
+           'gen_matrix': ['MatrixGen.v'], 'gen_loaders': ['LoadersGen.v', 'PortGen.v']}
 
 
 def poison(module, reason):
